@@ -33,6 +33,12 @@
  *   run                      tickit_run: iterations until a callback calls tickit_stop (action K); the harness's
  *                            ppoll stops the loop itself (`hstop`) when it would block for ever or after 50 waits
  *   destroy                  tickit_unref of the current instance
+ *   new [Cnn] tt             (default hooks only) before the instance is built a first stand-alone terminal
+ *                            (tickit_term_new_for_termtype) starts observing SIGWINCH: tickit_term_observe_sigwinch(tt0, true);
+ *                            it keeps observing until the process ends, so the observer list of term.c is never empty
+ *                            afterwards and tickit_term_observe_sigwinch never touches the SIGWINCH handler again
+ *   obs 0|1                  tickit_term_observe_sigwinch(tt1, 0|1) on a second stand-alone terminal (made on first use);
+ *                            only in a `tt` history
  *   end                      leak check
  * Actions: T,k,ms,flags  A,k,sec,usec,flags  L,k,flags  I,k,fd,cond,flags  S,k,sig,flags
  *          P,k,pid,flags  C,k  E,errno  R,sig  X,pid,status  K (tickit_stop)
@@ -109,6 +115,8 @@ static struct { int exited, reaped, status; } PR[NPID];
 /* the self-pipe configuration (`new … fb`) */
 #define PIPE0 90
 static int fbmode;
+static int ttmode;           /* `new … tt`: stand-alone terminals that observe SIGWINCH next to the instance */
+static TickitTerm *XT[2];    /* reachable from here: not leaks */
 static TickitEventHooks fbhooks;
 static int canon_pipe;       /* inside tickit_build / a registration: the next pipe() is the library's self-pipe */
 static int npipes;           /* pipes the library has made in this process */
@@ -372,6 +380,8 @@ static void engine_begin(void)
 {
   memset(TT, 0, sizeof TT); cur = 0; leaked = 0; nbeh = 0; ninpoll = 0; quiet = 0; in_run = 0; run_polls = 0;
   fbmode = 0; canon_pipe = 0; npipes = 0; pipe_rd = -1;
+  for(int i = 0; i < 2; i++) if(XT[i]) { tickit_term_unref(XT[i]); XT[i] = NULL; }
+  ttmode = 0;
   memset(W, 0, sizeof W);
   memset(PR, 0, sizeof PR);
   memset(ready_bits, 0, sizeof ready_bits);
@@ -422,6 +432,14 @@ static void engine_op(int argc, char **argv)
   if(strcmp(op, "new") == 0) {
     cur = 0;
     for(int i = 1; i < argc; i++) if(strcmp(argv[i], "fb") == 0) fbmode = 1;
+    for(int i = 1; i < argc; i++) if(strcmp(argv[i], "tt") == 0 && !fbmode) ttmode = 1;
+    if(ttmode) {
+      quiet = 1;
+      XT[0] = tickit_term_new_for_termtype("xterm");
+      quiet = 0;
+      if(!XT[0]) { obs("build-failed"); return; }
+      tickit_term_observe_sigwinch(XT[0], true);
+    }
     if(!build_current()) { obs("build-failed"); return; }
     obs("ok ");
     sig_trailer();
@@ -480,6 +498,12 @@ static void engine_op(int argc, char **argv)
   else if(strcmp(op, "tickhang") == 0 && argc == 1) { tickit_tick(T, TICKIT_RUN_NOSETUP); obs("ok "); }
   else if(strcmp(op, "run") == 0 && argc == 1) { in_run = 1; run_polls = 0; tickit_run(T); in_run = 0; obs("ok "); }
   else if(strcmp(op, "destroy") == 0 && argc == 1)  { tickit_unref(T); T = NULL; obs("ok "); }
+  else if(strcmp(op, "obs") == 0 && argc == 2 && ttmode && (v[0] == 0 || v[0] == 1)) {
+    if(!XT[1]) { quiet = 1; XT[1] = tickit_term_new_for_termtype("xterm"); quiet = 0; }
+    if(!XT[1]) { obs("build-failed"); return; }
+    tickit_term_observe_sigwinch(XT[1], v[0] == 1);
+    obs("ok ");
+  }
   else { obs("bad-op"); return; }
   sig_trailer();
 }
